@@ -116,7 +116,7 @@ GCancel ==
 
 GLoop ==
     \/ "loop" \in Modes /\ StartLoop /\ Rec([c |-> "start"]) /\ Quiet
-    \/ "wake" \in Modes /\ LoopWake /\ Rec([c |-> "wake"]) /\ Quiet
+    \/ "wake" \in Modes /\ (Record => pc = "waiting") /\ LoopWake /\ Rec([c |-> "wake"]) /\ Quiet
     \/ LoopStop /\ Rec([c |-> "stop"]) /\ Quiet
 
 (* generator: a behaviour without a cancel step only when "none" is asked for; *)
